@@ -84,6 +84,10 @@ ObsOK(r) ==
   /\ Chk("headers", r.n >= 1 => Pairs(r.h) = J.exp /\ NoDup(r.h))
   /\ Chk("sensitive", Ingress => NoSens(r.h) /\ r.leak = <<>>)
 
+\* the harness' companion message (batch requests that find two ready messages): also unchanged
+KOK(k) == k.n >= 1 => /\ k.pl.d = k.wpl.d /\ k.pl.n = k.wpl.n
+                      /\ Pairs(k.h) = Pairs(k.sent)
+
 TraceStart ==
   /\ IsEvent("Start")
   /\ LET e == Trace[l]
@@ -111,6 +115,7 @@ TraceDeq ==
   /\ LET e == Trace[l]
      IN /\ Chk("available", ms = "queued" => e.r.n = 1 /\ e.r.err = "")
         /\ ObsOK(e.r)
+        /\ Chk("companion", KOK(e.r.k))
         /\ DumpOK(e, Kept)
         /\ ms' = IF e.r.n >= 1 THEN "leased" ELSE ms
   /\ UNCHANGED J
@@ -134,6 +139,7 @@ TracePush ==
      IN /\ Chk("available", ms = "queued" => r.n = 1 /\ r.err = "")
         /\ Chk("payload", r.n >= 1 => SamePL(r.pl))
         /\ Chk("pushhdr", r.n >= 1 => J.exp \subseteq Pairs(r.h))
+        /\ Chk("companion", KOK(r.k))
         /\ Chk("sensitive", Ingress => NoSens(r.h) /\ NoSens(r.wh) /\ r.leak = <<>> /\ r.wleak = <<>>)
         /\ DumpOK(e, Kept)
         /\ ms' = IF r.n >= 1 THEN After(e.a.outcome) ELSE ms
